@@ -23,6 +23,8 @@ DOCS = [
     None,
 ]
 NAMES = ['x', 'y']
+# names that are also names of parameters inside the implementation (hidden or not): a variable name is just a name
+HOSTILE = ['context', 'engine', 'args', 'kwargs', 'receiver', 'self', 'name', 'func', 'data', 'sender', 'expr', 'value', 'collection', 'selector']
 
 
 class Gen(object):
@@ -111,7 +113,7 @@ class Gen(object):
         """context constructs around a body"""
         r = self.rng
         k = r.random()
-        name = r.choice(NAMES)
+        name = r.choice(NAMES) if r.random() < 0.9 else r.choice(HOSTILE)
         sc2 = dict(sc, vars=set(sc.get('vars', ())) | {name})
         if k < 0.35:
             kws = {name: self.expr(d - 1, sc)}
@@ -160,7 +162,17 @@ def fixed_probes():
     c, v, X = g.c, g.var, g.var('')
     arrow = lambda a, b: g.bn('->', a, b)
     one_two = g.lst(c(1), c(2))
-    return [
+    hostile = []
+    for n in HOSTILE:
+        hostile += [
+            arrow(g.call('let', **{n: c(1)}), v(n)),
+            arrow(g.call('let', c(4), **{n: c(1)}), g.lst(v('1'), v(n))),
+            arrow(g.mcall(g.lst(c(7), c(8)), 'unpack', g.kwd(n), g.kwd('y')), g.lst(v(n), v('y'))),
+            arrow(g.call('def', g.kwd('f'), v(n)), g.lst(g.call('f', **{n: c(3)}), v(n))),
+            g.mcall(g.mcall(one_two, 'select', arrow(g.call('let', **{n: X}), g.bn('+', v(n), c(1)))), 'toList'),
+            arrow(g.call('let', **{n: c(1)}), arrow(g.call('let', **{n: g.bn('+', v(n), c(1))}), v(n))),
+        ]
+    return hostile + [
         arrow(g.call('let', x=c(1)), arrow(g.call('def', g.kwd('f'), v('x')), arrow(g.call('let', x=c(5)), g.call('f')))),
         g.mcall(one_two, 'aggregate', g.lst(v('1'), v('2'), g.mcall(g.mcall(g.lst(c(7)), 'select', v('2')), 'toList'))),
         arrow(g.call('let', x=c(1)), g.lst(arrow(g.call('let', x=c(2)), v('x')), v('x'))),
